@@ -134,7 +134,8 @@ def run(tier, rep, work):
             rep.violation(path, "audit: %s at event %d: %s" % (kind, idx, json.dumps({k: ev[k] for k in ("label", "n", "live", "m", "empty", "inexact", "unreachable")})))
             if len(rep.violations) > 6:
                 break
-    rep.cov["exhaustive"] = True
+    rep.cov["exhaustive"] = False
+    rep.cov["exhaustive_scope"] = "model space enumerated completely by TLC; a stride of the generated histories is replayed; random histories and audits are samples"
     rep.cov["rule"] = ("(A) TLC explores every history of Add (levels 0/1) / Remove / Flush up to %d operations on a 5-point Golomb lattice with NonEmpty, SmallExact and the structural invariants; "
                        "(B) 1 in %d of those histories and seeded random histories (9 lattice points, levels 0-2, adversarial removal of the entry point) run on real HNSWIndex objects with M in {2,3,4}, "
                        "levels supplied through the verif hook; after EVERY operation the whole exported graph must equal the graph of HNSW.tla edge for edge (HNSWT) and the property monitors (HNSWP) "
